@@ -122,6 +122,9 @@ func buildWorld(sc *Scenario) *world {
 		t.Context = tc.Ctx
 		t.AllowFailure = tc.Allow
 		t.Before = cmds(tc.Before)
+		if tc.BeforeFail && len(t.Before) > 0 {
+			t.Before[len(t.Before)-1] += "; exit 1"
+		}
 		t.After = cmds(tc.After)
 		t.ExportAs = tc.Export
 		for i, c := range tc.Cmds {
